@@ -379,7 +379,14 @@ func cmdCheck(args []string) int {
 			body := violationBody(prop, r, or)
 			reproduced := false
 			if or.Status == "sat" && o.Class == "ensures" && !baseline {
-				ro := p.tryReplay(r.x.fn, o, or.Model, predictedNil(or.Model, o), replayDir, sanitize(o.Name))
+				model := or.Model
+				if predictedNil(model, o) == nil && or.Script != "" {
+					// the deciding solver was not the one whose script asks for the result's value: ask z3 for a model too
+					if out, _ := runSolver("z3-new", or.Script, 30); firstStatus(out) == "sat" {
+						model = out
+					}
+				}
+				ro := p.tryReplay(r.x.fn, o, model, predictedNil(model, o), replayDir, sanitize(o.Name))
 				switch {
 				case ro.reproduced:
 					reproduced = true
